@@ -6,3 +6,4 @@ import AkVerif.Props.C11
 import AkVerif.Props.C12
 import AkVerif.Props.C15
 import AkVerif.Props.C18
+import AkVerif.Props.C08
